@@ -269,7 +269,9 @@ def diag_case(draw):
     a = draw(gen.tt_spec(min_order=1, max_order=5, kind='vector', max_dim=3, max_rank=3))
     d = len(a['rows'])
     sub = draw(st.lists(st.integers(0, d - 1), unique=True, max_size=d))
-    return {'a': a, 'diag_list': sub}
+    # how the positions are written: plain list, tuple, integer array, or counted from the end (the list addresses the cores the
+    # python way)
+    return {'a': a, 'diag_list': sub, 'positions_form': draw(st.sampled_from(['list', 'list', 'tuple', 'ndarray', 'negative']))}
 
 
 def body_diag(case):
@@ -278,7 +280,15 @@ def body_diag(case):
     d = a.order
     D = sorted(case['diag_list'])
     x = dense.contract(a.cores).reshape(spec['rows'])
-    t = a.diag(list(case['diag_list']))
+    form = case.get('positions_form', 'list')
+    pos = list(case['diag_list'])
+    if form == 'negative':
+        pos = [p_ - d if k % 2 == 0 else p_ for k, p_ in enumerate(pos)]
+    elif form == 'tuple':
+        pos = tuple(pos)
+    elif form == 'ndarray':
+        pos = np.array(pos, dtype=np.int64)
+    t = a.diag(pos)
     require_consistent(t, 'diag_consistent')
     want_cols = [spec['rows'][i] if i in D else 1 for i in range(d)]
     require(t.row_dims == spec['rows'] and t.col_dims == want_cols, 'diag_dims',
@@ -291,6 +301,8 @@ def body_diag(case):
     lab = gen.spec_labels(spec)
     if any(spec['rows'][i] == 1 for i in D):
         lab.add('diag_size1')
+    if form != 'list' and D:
+        lab.add('positions_' + form)
     if not D:
         lab.add('diag_none')
     elif len(D) == d:
